@@ -8,3 +8,6 @@ package asthelper
 
 //@ func CallExprByName
 //@   inline
+
+//@ func IndexExpr
+//@   inline
